@@ -50,10 +50,10 @@ class CylinderOnAxis(Surface):
     def find_duplicate_surfaces(self, surfaces, tolerance):
         ret = []
         # do not assume transform and periodic surfaces are the same.
-        if not self.old_periodic_surface:
+        if self.periodic_surface is None:
             for surface in surfaces:
                 if surface != self and surface.surface_type == self.surface_type:
-                    if not surface.old_periodic_surface:
+                    if self._may_be_merged_with(surface):
                         if abs(self.radius - surface.radius) < tolerance:
                             if self.transform:
                                 if surface.transform:
